@@ -35,6 +35,18 @@ CHECKS = {
     "C10": dict(engine="S", technique="stateful property-based testing (rapid): invariant over each correct node's send log joined with its reference-validated inbox",
         level="Single-valued signatures and phase-order rules are checked on every message a correct node sends in generated adversarial executions (equivocating leaders, duplicates, replays, late commits).",
         note=SIM_NOTE),
+    "C07": dict(engine="N+S", technique="property-based testing (rapid): valid-then-mutated message candidates against an independent reference certificate predicate; same oracle as a monitor in the stateful cluster simulator",
+        level="Field-by-field mutation of reference-built NEW_VIEW / PREPREPARE / VIEW_CHANGE messages delivered to a real node in generated states; every effect is judged by ref.ValidNewView. Control group (unmutated accepted) is measured. Known finding (stand-alone PREPREPARE in view>0) is listed, counted and reported as KNOWN-FINDING.",
+        note=SIM_NOTE + " Engine N: the harness holds every key except the node's own."),
+    "C08": dict(engine="N+S", technique="property-based testing (rapid): valid-then-mutated PREPREPARE/PREPARE/COMMIT/VIEW_CHANGE candidates against the reference predicate mayInfluence; monitor on every delivery in the cluster simulator",
+        level="One-directional oracle (effect implies authorised) over a mutation catalogue covering instance, height, view, hash, sender, signature, type tag, envelope re-wrap, share, proofs; measured control-group acceptance.",
+        note=SIM_NOTE + " Interpretation: type tags of block references inside proofs and of the proposal embedded in a NEW_VIEW are not demanded (DESIGN section 10)."),
+    "C09": dict(engine="N+S", technique="stateful property-based testing (rapid): outgoing VIEW_CHANGE / NEW_VIEW of a real node checked against its delivered history and storage log",
+        level="Voter and collector scenarios on one real node with generated vote sets, plus monitors on every correct node's view-change output in generated cluster executions.",
+        note=SIM_NOTE),
+    "C11": dict(engine="S", technique="stateful property-based testing (rapid): acceptance oracle at every delivery of honest traffic in adversarial executions",
+        level="Whenever a correct node's message reaches a correct peer in a state matching the statement's precondition, the accepting effect must occur; adversary strategies that contaminate logs (outsider/Byzantine PREPARE/COMMIT/VIEW_CHANGE variants, re-wraps) are emphasised. The clone-by-replay variant of the design (judging at emission against every peer) is not built; acceptance is judged when the schedule delivers.",
+        note=SIM_NOTE),
     "C18": dict(engine="P", technique="property-based testing (rapid) + dense enumeration of the leader function against view mod n in uint64",
         level="Leader function tabulated through a verif-tagged accessor over dense small views, all power-of-two neighbourhoods, 2^63 and 2^64-1 neighbourhoods and random 64-bit views for n=4..64, including round-robin windows.",
         note="Trusts the accessor VerifLeaderOf (one-line wrapper around the package-private function). Behavioural cross-check (leader acceptance on a real node at views >= 2^63) is part of C12/C08 engine N."),
